@@ -295,6 +295,13 @@ class FnVal:
         return "fn:" + self.path
 
 
+class Fork:
+    """several possible results of a modelled call, each with the reason it is taken"""
+
+    def __init__(self, alts):
+        self.alts = alts
+
+
 class Iter:
     def __init__(self, items=None, sym=None):
         self.items = items      # concrete list or None
@@ -732,6 +739,8 @@ class Interp:
                     p.conds.append((v if isinstance(v, SymExpr) else self._discr_descr(fr, t), val, fr.f["key"], fr.bb))
                     fr.bb, fr.si = b, 0
             elif k == "call":
+                self._work = work
+                self._cur_path = p
                 r = self._call(p, fr, t)
                 if r == "pushed":
                     continue
@@ -913,6 +922,23 @@ class Interp:
     def _finish_call(self, fr, t, r):
         if r == "diverge":
             return "diverge"
+        if isinstance(r, Fork):
+            # the model cannot decide between several results: one path per alternative
+            p = getattr(self, "_cur_path", None)
+            work = getattr(self, "_work", None)
+            if p is None or work is None or p.frames[-1] is not fr or not r.alts:
+                r = Unknown("fork outside a path")
+            else:
+                for why, alt in r.alts[1:]:
+                    q = copy.deepcopy(p)
+                    q.conds.append((why, "alt", fr.f["key"], fr.bb))
+                    qfr = q.frames[-1]
+                    self.write_place(qfr, t["dest"], copy.deepcopy(alt))
+                    if t["target"] is not None:
+                        qfr.bb, qfr.si = t["target"], 0
+                        work.append(q)
+                p.conds.append((r.alts[0][0], "alt", fr.f["key"], fr.bb))
+                r = r.alts[0][1]
         self.write_place(fr, t["dest"], r)
         if t["target"] is None:
             return "diverge"
@@ -1438,6 +1464,8 @@ def std_model(I, p, fr, t, args):
                 r = I.call_value(f1, [v], depth)
                 if isinstance(r, bool):
                     return d0 if r else Adt(OPT, "None", {})
+                # a predicate over symbolic data: both outcomes
+                return Fork([("Option::filter keeps the value", d0), ("Option::filter drops the value", Adt(OPT, "None", {}))])
         else:
             ok = d0.variant == "Ok"
             if n == "is_ok":
